@@ -4,7 +4,7 @@
 (* (C10), drv_kernels.cpp (C08, C09) and drv_matop.cpp (C11).  Every row is *)
 (* one case executed on the real classes; the specification judges it.      *)
 (***************************************************************************)
-EXTENDS Naturals, Integers, Sequences, FiniteSets, TLC, Json, IOUtils, BKLDLT
+EXTENDS Naturals, Integers, Sequences, FiniteSets, TLC, Json, IOUtils, BKLDLT, QRKernels
 
 VARIABLES l, mon, cov
 Tr == ndJsonDeserialize(IOEnv.TRACE)
@@ -50,13 +50,42 @@ ProtoHits(e) ==
       [] e.what = "recompute" -> If(e.out = 0 /\ e.info = SUCCESS, "RecomputeIndependentOfHistory")
       [] OTHER -> {Hit("UnknownRow")}
 
+\* ---------------------------------------------------------------- C08
+QrHits(e) ==
+    LET rb == RelBound(e.ty, e.qn) ab == AbsBound(e.ty, e.qn, e.qscale) IN
+    If(ProtoOK(e.pre), "ResultBeforeComputeIsLogicError")
+    \cup If(e.fin = 1, "QrFinite")
+    \cup If(QLe(e.qQQ, rb), "QOrthogonal")
+    \cup If(QLe(e.qQR, ab), "QRequalsShiftedH")
+    \cup If(QLe(e.qSim, ab), "QtHQisSimilarity")
+    \cup If(QLe(e.qApply, rb), "ApplyMultipliesByQ")
+    \cup If(e.rtri = 1, "RUpperTriangular")
+    \cup (IF e.cls = "ds"
+          THEN If(QLe(e.qLow, ab), "QtHQHessenberg")
+               \* first column of Q parallel to (H^2 - sH + tI) e1: deviation of the normalised column times its relative size
+               \cup If(e.qFirst = QZERO \/ QLe(e.qFirst + QMin(e.qM1, 0), rb), "FirstColumnParallel")
+          ELSE If(e.hess = 1, "QtHQHessenberg") \cup If(e.tri = 1, "QtHQTridiagonalSymmetric"))
+    \cup (IF ExactDomain(e.cls, e.kind, e.sk) THEN If(ExactOK(e), "ExactOnTrivialRotations") ELSE {})
+
+\* ---------------------------------------------------------------- C09
+EigHits(e) ==
+    IF e.thr # 0
+    THEN \* a failure is reported by runtime_error, never by wrong numbers; none of the generated families may fail
+         If(e.thr = 1, "FailureIsRuntimeError") \cup {Hit("DecompositionFailed")}
+    ELSE LET rb == RelBound(e.ty, e.qn) ab == AbsBound(e.ty, e.qn, e.qscale) IN
+         If(e.fin = 1, "EigFinite") \cup If(QLe(e.qRes, ab), "BackwardStable") \cup If(QLe(e.qOrth, rb), "OrthogonalOrUnitNorm")
+         \cup (IF e.cls = "schur" THEN If(e.quasi = 1, "QuasiTriangular") \cup If(e.std2 = 1, "BlocksStandardised") ELSE {})
+         \cup (IF e.cls = "hesseig" THEN If(e.conv = 1, "ExactConjugatePairing") ELSE {})
+
 TrInit == l = 1 /\ mon = {} /\ cov = [key \in CovKeys |-> 0]
 TrStep ==
     /\ l <= Len(Tr)
     /\ LET e == Tr[l] IN
         /\ mon' = AddHits(mon, CASE e.e = "Bk" -> BkHits(e)
                                  [] e.e = "BkProto" -> ProtoHits(e)
-                                 [] e.e \in {"Reset", "EndBk"} -> {}
+                                 [] e.e = "Qr" -> QrHits(e)
+                                 [] e.e = "Eig" -> EigHits(e)
+                                 [] e.e \in {"Reset", "EndBk", "EndKernels"} -> {}
                                  [] OTHER -> {Hit("UnknownRow")})
         /\ cov' = LET c0 == Bump(cov, "rows", 1) IN
                   CASE e.e = "Bk" /\ e.kind = "exact" ->
@@ -68,6 +97,8 @@ TrStep ==
                                         "bk_meas_illcond", IF e.qcond = QNAN \/ e.qcond > -QEPS12(e.ty) THEN 1 ELSE 0),
                                    "bk_n1", IF e.n = 1 THEN 1 ELSE 0), "bk_complex", IF e.ty > 10 THEN 1 ELSE 0)
                     [] e.e = "BkProto" -> Bump(c0, "bk_proto", 1)
+                    [] e.e = "Qr" -> Bump(Bump(c0, "qr_rows", 1), "qr_exact", IF ExactDomain(e.cls, e.kind, e.sk) THEN 1 ELSE 0)
+                    [] e.e = "Eig" -> Bump(Bump(c0, "eig_rows", 1), "eig_exact", IF e.thr = 0 /\ e.cls = "hesseig" THEN 1 ELSE 0)
                     [] OTHER -> c0
     /\ l' = l + 1
 TrFinish ==
